@@ -230,7 +230,9 @@ func expectFor(g *model.GenPkg, f *model.Field) (accExpect, error) {
 		if fd.IsMap() {
 			accessor = ".Map()"
 		}
-		e.set = []string{L + " = *$2" + accessor + ".(*" + tq(vt) + ")." + vf}
+		e.set = []string{L + " = *$2" + accessor + ".(*" + tq(vt) + ")." + vf,
+			// the same with the failed assertion turned into an explicit panic
+			"%t1, %t2 := $2" + accessor + ".(*" + tq(vt) + "); if !%t2 {panic}; " + L + " = *%t1." + vf}
 		init := T + "{}"
 		if fd.IsMap() {
 			init = "make(" + T + ")"
@@ -309,7 +311,9 @@ func expectFor(g *model.GenPkg, f *model.Field) (accExpect, error) {
 		if k == protoreflect.MessageKind {
 			MT := tq(T.(*types.Pointer).Elem())
 			e.mutable = []string{"if (" + L + " == nil) {" + L + " = new(" + MT + ")}; return protoreflect.ValueOfMessage(" + L + ".ProtoReflect())",
-				"if (" + L + " == nil) {" + L + " = new(" + MT + ")}; return protoreflect.ValueOfMessage(" + L + ".ProtoReflect())"}
+				"if (" + L + " == nil) {" + L + " = new(" + MT + ")}; return protoreflect.ValueOfMessage(" + L + ".ProtoReflect())",
+				// the stored message first, allocation otherwise
+				"if %v := " + L + "; (%v != nil) {return protoreflect.ValueOfMessage(%v.ProtoReflect())}; " + L + " = new(" + MT + "); return protoreflect.ValueOfMessage(" + L + ".ProtoReflect())"}
 			e.newField = []string{"return protoreflect.ValueOfMessage(new(" + MT + ").ProtoReflect())", "return protoreflect.ValueOfMessage(&" + MT + "{}.ProtoReflect())"}
 		} else {
 			e.mutable = []string{"panic"}
